@@ -27,6 +27,11 @@ class E:
     def __hash__(self):
         return hash(("E", self.v))
 
+    def __bool__(self):
+        # like the integer it stands for: E(0) is falsy, so code that mistakes "falsy element"
+        # for "no element" (if x: / d.get(k) or ...) is exposed
+        return self.v != 0
+
     def __repr__(self):
         return "E(%d|%s)" % (self.v, ",".join(map(str, sorted(self.prov))))
 
@@ -309,14 +314,22 @@ class Jobs:
         self.running = 0
         self.max_running = 0
         self.auto = False
-        self.fail_at = set(fail_at)
+        # even invocation indices in fail_at fail inside the job, odd ones at the call
+        self.fail_at = {i for i in fail_at if i % 2 == 0}
+        self.fail_sync_at = {i for i in fail_at if i % 2 == 1}
 
     def __call__(self, x):
-        return self._job(x)
-
-    async def _job(self, x):
         inv = self.n
         self.n += 1
+        if inv in self.fail_sync_at:
+            # the mapped callable itself raises (before any awaitable exists)
+            ex = Boom(("j", self.jid, inv))
+            self.log.add("js", self.jid, inv, x, self.log.now(), self.running)
+            self.log.add("jx", self.jid, inv, ex)
+            raise ex
+        return self._job(x, inv)
+
+    async def _job(self, x, inv):
         self.running += 1
         self.max_running = max(self.max_running, self.running)
         self.log.add("js", self.jid, inv, x, self.log.now(), self.running)
